@@ -25,6 +25,23 @@ type Worker struct {
 	Script  gen.Script `json:"script"`
 	Renders []string   `json:"renders"`
 	Reuse   bool       `json:"reuse,omitempty"` // one wrapper per style reused for repeated renders (else fresh wrappers)
+	// Faults[i] > 0: before render i the same wrapper renders into a writer whose write number Faults[i]-1 fails
+	// (the rest succeed): whatever that leaves behind must not reach this or any other goroutine's output.
+	Faults []int `json:"faults,omitempty"`
+}
+
+type failOnce struct {
+	k, calls int
+}
+
+func (w *failOnce) Write(p []byte) (int, error) {
+	runtime.Gosched()
+	i := w.calls
+	w.calls++
+	if i == w.k {
+		return len(p) / 2, fmt.Errorf("injected write failure")
+	}
+	return len(p), nil
 }
 
 type Case struct {
@@ -63,6 +80,9 @@ func run(wk Worker, yield bool) []result {
 			rw = long[st]
 		} else {
 			rw = auto.Wrap(t, st)
+		}
+		if i < len(wk.Faults) && wk.Faults[i] > 0 {
+			rw.RenderTo(&failOnce{k: wk.Faults[i] - 1})
 		}
 		var err error
 		if yield {
